@@ -371,7 +371,7 @@ def run_C19(ctx):
                      '{[k |-> "read", ty |-> "varint"], [k |-> "read", ty |-> "zigzag"], [k |-> "read", ty |-> "B"], [k |-> "in", w |-> "pos"], '
                      'W("dup"), [k |-> "write"]}', "{}", 3 if q else 4, stackmax=4, inp=inp)
     # `exit`: leaving the user-defined word from inside its ifs and loops, called from inside the caller's loops
-    _forth_phase(ctx, "exit-from-words", '{Lit(0), Lit(1), Lit(2), W("i"), W("exit")}', '{"if", "do", "def"}', 6 if q else 7, stackmax=8, fuel=80, inp="<<1>>")
+    _forth_phase(ctx, "exit-from-words", '{Lit(0), Lit(1), Lit(2), W("i"), W("exit")}', '{"if", "do", "while", "until", "def"}', 6 if q else 7, stackmax=8, fuel=80, inp="<<1>>")
     # nested loops, exhaustively over a tiny vocabulary
     _forth_phase(ctx, "nested-loops", '{Lit(0), Lit(2), W("i")}', '{"do", "+do"}', 7 if q else 8, stackmax=6, fuel=80, inp="<<1>>")
     # deeper, nested control flow: behaviours sampled at random from the same machine (TLC -simulate)
